@@ -1,5 +1,6 @@
 """Shared runner: CLI, parallel Hypothesis driving, statistics, evidence, replay files, known findings."""
 import argparse
+import re
 import collections
 import hashlib
 import importlib
@@ -233,7 +234,7 @@ def finish(prop, tier, seed, level, rule, stats, t0, assumptions=(), extra_cover
     seen = set()
     nviol = 0
     for v in stats.violations:
-        key = v['what'][:120]
+        key = re.sub(r"\b[A-Z][A-Za-z]?\d+\b", "T", v["what"])[:120]
         if key in seen:
             continue
         seen.add(key)
